@@ -622,8 +622,20 @@ func TestC15Faults(t *testing.T) {
 		// the clean-up after a failed Build may fail as well (Close methods of what was built so
 		// far return errors): the constructor's failure is still what Build has to report
 		cleanupFails := duringBuild && rapid.IntRange(0, 2).Draw(rt, "cleanupFails") == 0
-		y, err := replay(cfg, script, func(w *kit.World) {
+		// the failing constructor may be the reason the build's context is done (a dial that gives up
+		// at the deadline of the build, a constructor that cancels what it was started under): what
+		// it fails with is still what Build reports
+		// (not behind an optional dependency: there the failure is swallowed - the known finding - and
+		// the build goes on to notice nothing but the cancellation)
+		cancelsBuild := duringBuild && flt.Kind != kit.FaultNil && !reachableViaOptional(x.M, inv.Reg) && rapid.IntRange(0, 2).Draw(rt, "cancelsBuild") == 0
+		rcfg := cfg
+		if cancelsBuild {
+			rcfg = kit.CloneConfig(cfg)
+			rcfg.BuildMode = 1
+		}
+		y, err := replay(rcfg, script, func(w *kit.World) {
 			w.Faults[key] = flt
+			w.CancelBuildOnFault = cancelsBuild
 			if cleanupFails {
 				regs := map[int]bool{}
 				for _, r := range w.Cfg.Regs {
@@ -668,7 +680,13 @@ func TestC15Faults(t *testing.T) {
 		if cleanupFails {
 			labels = append(labels, "clean-up-after-failed-build-fails-too")
 		}
-		canon := fmt.Sprintf("%s || %s || fault r%d#%d kind %d", cfg, scriptString(script), inv.Reg, inv.N, flt.Kind)
+		if cancelsBuild {
+			labels = append(labels, "failing-constructor-cancels-the-build-context")
+		}
+		canon := fmt.Sprintf("%s || %s || fault r%d#%d kind %d", rcfg, scriptString(script), inv.Reg, inv.N, flt.Kind)
+		if cancelsBuild {
+			canon += " (the failing constructor first cancels the context of BuildWithContext)"
+		}
 		col.Case(depth >= 2 || inv.N >= 2, canon, canon, labels...)
 
 		var f *Failure
